@@ -103,6 +103,11 @@ def judge_sql(w, sql, dialect, schema, do_bind):
                 return [], {"parser_limitation": 1}
         msg = re.sub(r"Line: \d+, Column:? \d+", "", r.get("parse_error", "?"))
         msg = re.sub(r"\d+", "N", msg)[:90]
+        if dialect == "ansi" and re.search(r"(?<![\w\"`'])_[A-Za-z0-9_]+", re.sub(r"'(?:[^']|'')*'", "''", sql)):
+            # a regular identifier of standard SQL starts with a letter: the statement carries a bare
+            # name with a leading underscore (the compiler's _expr_N, or a user's), and where the ANSI
+            # grammar gives up on it depends on the surrounding construct - one class, not one per message
+            msg = "bare identifier with a leading underscore" 
         out.append(("dialect_parser_rejects:" + msg, r.get("parse_error", "")[:200]))
         return out, {"parsed": 0}
     if r.get("n") != 1 or not r.get("is_query"):
